@@ -49,6 +49,7 @@ func checkC04(p *Prog, r *Report) {
 	checkDoShutdown(p, r, rWg, a)
 	checkProxiesCancellable(p, r, rAnch, rSel, rGo)
 	checkEventSwitch(p, r, rEv)
+	checkEventsLossless(p, r, r.Rule("events-lossless", "an event is never dropped: every send of an Event blocks until taken (or the context ends)"))
 }
 
 // checkReleaseTable evaluates the release specification on every admitted
@@ -526,4 +527,63 @@ func guardingFieldTest(fn *ssa.Function, target ssa.Instruction, f *types.Var) *
 		}
 	})
 	return out
+}
+
+// checkEventsLossless: sends whose element type is iobroker.Event.
+func checkEventsLossless(p *Prog, r *Report, ru *Rule) {
+	isEvent := func(ch ssa.Value) bool {
+		ct, ok := ch.Type().Underlying().(*types.Chan)
+		if !ok {
+			return false
+		}
+		n := namedOf(ct.Elem())
+		return nil != n && "Event" == n.Obj().Name() && nil != n.Obj().Pkg() && strings.HasSuffix(n.Obj().Pkg().Path(), iobPkg)
+	}
+	n := 0
+	for _, fn := range p.Funcs() {
+		if nil == fn.Pkg && nil == fn.Parent() {
+			continue
+		}
+		k := 0
+		eachInstr(fn, func(i ssa.Instruction) {
+			switch x := i.(type) {
+			case *ssa.Send:
+				if isEvent(x.Chan) {
+					n++
+					k++
+					ru.OK(fmt.Sprintf("%s:send#%d", fnName(fn), k), posOf(x), "plain blocking send")
+				}
+			case *ssa.Select:
+				for _, st := range x.States {
+					if types.SendOnly != st.Dir || !isEvent(st.Chan) {
+						continue
+					}
+					n++
+					k++
+					c := fmt.Sprintf("%s:send#%d", fnName(fn), k)
+					if !x.Blocking {
+						ru.Bad(c, posOf(x), "the event is sent in a select with a default arm: when the receiver's buffer is full the event is silently dropped, and a listener sees a connected event without its disconnected event (or the reverse)")
+						continue
+					}
+					okk := true
+					for _, o := range x.States {
+						if o == st {
+							continue
+						}
+						if _, isDone := isCtxDone(o.Chan); !(types.RecvOnly == o.Dir && isDone) {
+							okk = false
+						}
+					}
+					if okk {
+						ru.OK(c, posOf(x), "blocking select; the only alternative is the context ending")
+					} else {
+						ru.Bad(c, posOf(x), "the event send competes with an arm other than ctx.Done(): the event can be abandoned while the program keeps running")
+					}
+				}
+			}
+		})
+	}
+	if n < 2 {
+		ru.Unproven("event sends", token.NoPos, "%d sends of Event values found, at least 2 expected (into the broker's queue and out to the listeners)", n)
+	}
 }
